@@ -340,7 +340,7 @@ def build_res(al, p):
 
 # Fails on the unchanged tree (a top-level def called only from a def written inside <%call> gets the bare context): reported;
 # enumerated once the finding is registered (signature prefix "res:topdef-called-only-from-def-in-call:") or the fix is applied
-RES_SITES_PENDING = ["def<calldef"]
+RES_SITES_PENDING = []
 
 
 def res_params(tier):
